@@ -525,6 +525,13 @@ def main_check(mod):
         print("KNOWN-FINDING: property=%s %s (%s; %d cases this run, e.g. %s)" %
               (pid, k["what"], cls, len(idxs), lines[idxs[0]][:200]))
 
+    # listed findings that no generated case of this run falls into (witness recorded in the
+    # known-findings file; where it is a Coq refutation theorem it was re-checked above)
+    for k in known_for:
+        if k["id"] not in known_hits:
+            print("KNOWN-FINDING: property=%s %s (%s; no generated case of this run is in the class; recorded witness: %s)" %
+                  (pid, k["what"], k["id"], str(k.get("witness", ""))[:160].replace("\n", " ")))
+
     def one(l):
         rw, ob = run_impl([l])
         mi, mo = run_model([l], rw)
